@@ -33,6 +33,7 @@ Pool == 1..Len(ArgDescs)
 Fits(s) == IF s[3] THEN {Len(s[2]) - 1, Len(s[2]), Len(s[2]) + 1} ELSE {Len(s[2])}
 Cases(s) ==
   { <<[i \in 1..n |-> 1], sp, r>> : n \in 0..(Len(s[2]) + 2), sp \in BOOLEAN, r \in {"int"} }
+  \cup { <<[i \in 1..n |-> IF i = n THEN a ELSE 1], TRUE, "int">> : n \in 1..(Len(s[2]) + 2), a \in {7, 8, 12} }      \* spread of an array at every length
   \cup { <<as, FALSE, r>> : as \in UNION { [1..n -> Pool] : n \in Fits(s) \cap (0..3) }, r \in {"int", "error"} }
   \cup { <<as, TRUE, "int">> : as \in UNION { [1..n -> Pool] : n \in {Len(s[2])} \cap (1..2) } }
   \cup { <<[i \in 1..Len(s[2]) |-> 1], FALSE, r>> : r \in Rets }
